@@ -16,7 +16,9 @@ const PATHS: [&str; 15] = ["time", "strings", "math/rand", "crypto/rand", "gopkg
     "example.com/t1", "example.com/t2", "example.com/t3", "example.com/ret4"];
 
 /// what the program declares for the package and how it uses it
-const USES: [&str; 14] = [
+const USES: [&str; 18] = [
+    // an item of the program spelled like the name the package is imported under
+    "fn-next-to-a-function-named-like-the-package", "fn-next-to-a-struct-named-like-the-package", "fn-next-to-a-variant-named-like-the-package", "fn-next-to-a-generic-function-named-like-the-package",
     "fn-called", "fn-called-in-closure", "fn-called-discarded", "fn-only-in-unused-fn", "fn-declared-never-called", "type-and-fn-called", "type-declared-only", "type-in-signature-only",
     // a foreign function declared `-> unit` is a Go function without a result
     "unit-fn-as-statement", "unit-fn-result-bound", "unit-fn-as-function-result",
@@ -31,6 +33,33 @@ fn program(paths: &[&str], usage: &str, placement: &str) -> String {
     let mut main = String::new();
     for (k, p) in paths.iter().enumerate() {
         match usage {
+            u if u.starts_with("fn-next-to-") => {
+                decls.push_str(&format!("extern \"go\" \"{}\" \"Do\" do{}(n: int32) -> int32\n", p, k));
+                main.push_str(&format!("    string_println(int32_to_string({}do{}(1)));\n", q, k));
+                let seg = p.rsplit('/').next().unwrap_or("");
+                let is_ident = seg.chars().next().map(|c| c.is_ascii_alphabetic()).unwrap_or(false) && seg.chars().all(|c| c.is_ascii_alphanumeric() || c == '_') && seg != "go";
+                // (two paths with one last segment: the item is declared once)
+                if is_ident && !decls.contains(&format!(" {}(", seg)) && !decls.contains(&format!("struct {} ", seg)) && !decls.contains(&format!(" {}[", seg)) {
+                    match u {
+                        "fn-next-to-a-function-named-like-the-package" => {
+                            decls.push_str(&format!("fn {}(n: int32) -> int32 {{ n + 1 }}\n", seg));
+                            main.push_str(&format!("    string_println(int32_to_string({}{}(2)));\n", q, seg));
+                        }
+                        "fn-next-to-a-generic-function-named-like-the-package" => {
+                            decls.push_str(&format!("fn {}[T](n: T) -> T {{ n }}\n", seg));
+                            main.push_str(&format!("    string_println(int32_to_string({}{}(2)));\n", q, seg));
+                        }
+                        "fn-next-to-a-struct-named-like-the-package" => {
+                            decls.push_str(&format!("struct {} {{ v: int32 }}\n", seg));
+                            main.push_str(&format!("    let s{k} = {q}{seg} {{ v: 3 }};\n    string_println(int32_to_string(s{k}.v));\n", k = k, q = q, seg = seg));
+                        }
+                        _ => {
+                            decls.push_str(&format!("enum En{k} {{ {seg}(int32), Other{k} }}\n", k = k, seg = seg));
+                            main.push_str(&format!("    let e{k} = {q}En{k}::{seg}(4);\n    let n{k} = match e{k} {{ {q}En{k}::{seg}(w) => w, {q}En{k}::Other{k} => 0 }};\n    string_println(int32_to_string(n{k}));\n", k = k, q = q, seg = seg));
+                        }
+                    }
+                }
+            }
             "fn-called" => {
                 decls.push_str(&format!("extern \"go\" \"{}\" \"Do\" do{}(n: int32) -> int32\n", p, k));
                 main.push_str(&format!("    string_println(int32_to_string({}do{}(1)));\n", q, k));
@@ -102,7 +131,7 @@ impl Family for Externs {
         &["C02", "C04"]
     }
     fn rule(&self) -> &'static str {
-        "extern declarations: 15 import paths (incl. last segments spelled like the compiler's temporaries; standard library, nested, a last segment that is not an identifier, a version suffix, two paths with one last segment, a last segment spelled like the runtime's own import, two paths that differ in '/' against '_', a last segment that is a Go keyword) taken one at a time and in all pairs x 11 usages x 2 placements of the declarations (the main package; a library package that main imports) (function called / called in a closure / called and discarded / called only from an unused function / never called; type with constructor and consumer called / type declared only / type used in a signature only; a function declared '-> unit' called as a statement / with its result bound / as the result of a goml function: Go functions without a result can only be statements); oracle: the emitted Go passes the static checker with foreign members opaque (every package the text names is imported under that name, no import unused, no two imports bind one name); the programs are not executed (the Go model has no foreign packages). non-trivial = programs with two packages or a non-identifier last segment; distinct = distinct source text"
+        "extern declarations: 15 import paths (incl. last segments spelled like the compiler's temporaries; standard library, nested, a last segment that is not an identifier, a version suffix, two paths with one last segment, a last segment spelled like the runtime's own import, two paths that differ in '/' against '_', a last segment that is a Go keyword) taken one at a time and in all pairs x 18 usages x 2 placements of the declarations (the main package; a library package that main imports) (next to a function, generic function, struct or variant of the program spelled like the name the package is imported under; function called / called in a closure / called and discarded / called only from an unused function / never called; type with constructor and consumer called / type declared only / type used in a signature only; a function declared '-> unit' called as a statement / with its result bound / as the result of a goml function: Go functions without a result can only be statements); oracle: the emitted Go passes the static checker with foreign members opaque (every package the text names is imported under that name, no import unused, no two imports bind one name); the programs are not executed (the Go model has no foreign packages). non-trivial = programs with two packages or a non-identifier last segment; distinct = distinct source text"
     }
     fn cases(&self, _tier: Tier) -> Box<dyn Iterator<Item = Value> + '_> {
         let mut v = Vec::new();
